@@ -236,10 +236,42 @@ def run_impl(lines, tag, sub="exec"):
 
 
 def run_model(lines):
-    p = run([ACDRV], stdin="\n".join(lines) + "\n")
-    if p.returncode != 0:
-        raise RuntimeError("acdrv failed: " + p.stderr[-2000:])
-    return p.stdout.splitlines()
+    """The driver answers each line independently: large batches are split over the cores (answers renumbered)."""
+    njobs = min(os.cpu_count() or 1, 16, max(1, len(lines) // 24))
+    if njobs <= 1:
+        p = run([ACDRV], stdin="\n".join(lines) + "\n")
+        if p.returncode != 0:
+            raise RuntimeError("acdrv failed: " + p.stderr[-2000:])
+        return p.stdout.splitlines()
+    # interleaved assignment balances cheap and expensive request families
+    parts = [list(range(j, len(lines), njobs)) for j in range(njobs)]
+    procs = []
+    for idxs in parts:
+        pr = subprocess.Popen([ACDRV], stdin=subprocess.PIPE, stdout=subprocess.PIPE, stderr=subprocess.PIPE, text=True, env=env())
+        procs.append((pr, idxs))
+    import threading
+    outs = [None] * njobs
+
+    def feed(j):
+        pr, idxs = procs[j]
+        outs[j] = pr.communicate("\n".join(lines[i] for i in idxs) + "\n")
+    ths = [threading.Thread(target=feed, args=(j,)) for j in range(njobs)]
+    for t in ths:
+        t.start()
+    for t in ths:
+        t.join()
+    res = []
+    for j, (pr, idxs) in enumerate(procs):
+        if pr.returncode != 0:
+            raise RuntimeError("acdrv failed: " + (outs[j][1] or "")[-2000:])
+        for l in outs[j][0].splitlines():
+            parts_ = l.split(" ", 1)
+            if len(parts_) == 2 and parts_[0].isdigit() and int(parts_[0]) < len(idxs):
+                res.append("%d %s" % (idxs[int(parts_[0])], parts_[1]))
+            else:
+                res.append(l)
+    res.sort(key=lambda l: int(l.split(" ", 1)[0]) if l.split(" ", 1)[0].isdigit() else 1 << 60)
+    return res
 
 
 def index_resp(lines):
